@@ -8,6 +8,7 @@ import (
 	"fmt"
 	"sort"
 	"testing"
+	"time"
 
 	"github.com/rogpeppe/go-internal/par"
 	"pgregory.net/rapid"
@@ -27,6 +28,8 @@ type Plan struct {
 	After    []int       `json:"after"`              // yields after adding children, per item
 	WaitFor  []int       `json:"wait_for,omitempty"` // per item: after adding its children, f blocks until this child (index into children) has started; -1 none
 	NilItem  int         `json:"nil_item,omitempty"` // 1+index of the item that is represented by an untyped nil (0: none)
+	SlowItem int         `json:"slow_item,omitempty"` // 1+index of an item whose f takes SlowMs of simulated time (it sleeps on the fake clock)
+	SlowMs   int         `json:"slow_ms,omitempty"`
 	Sched    simrt.Sched `json:"sched"`
 }
 
@@ -97,6 +100,11 @@ func genPlan(t *rapid.T, tier string) any {
 	if rapid.IntRange(0, 3).Draw(t, "nilitem") == 0 {
 		p.NilItem = 1 + rapid.IntRange(0, n-1).Draw(t, "whichnil")
 	}
+	if rapid.IntRange(0, 5).Draw(t, "slow") == 0 {
+		// one call of f takes long: however long, Do waits for it and nothing else changes
+		p.SlowItem = 1 + rapid.IntRange(0, n-1).Draw(t, "slowitem")
+		p.SlowMs = rapid.SampledFrom([]int{1, 150, 250, 1000, 61000}).Draw(t, "slowms")
+	}
 	p.Sched = gen.Sched(t, 400)
 	return p
 }
@@ -149,9 +157,12 @@ func run(t *testing.T, plan any, keep bool) *simcheck.Outcome {
 	runners := map[int]bool{}
 	inflight, maxInflight := 0, 0
 	returned := false
+	slept := 0
 
 	// 50x the longest fault-free run seen for these sizes (about 400 decisions)
-	rep := simrt.Run(t, simrt.Options{Sched: p.Sched, Strict: true, MaxSteps: 20000, KeepTrace: keep}, func(s *simrt.Sim) {
+	// with a sleeping f nothing may be eligible for a while: the scheduler then idles on the fake clock
+	// (a run in which nothing happens for two simulated hours counts as a deadlock)
+	rep := simrt.Run(t, simrt.Options{Sched: p.Sched, Strict: p.SlowItem == 0, IdleCap: 2 * time.Hour, MaxSteps: 20000, KeepTrace: keep}, func(s *simrt.Sim) {
 		var w par.Work
 		// items are ints, except that one of them may be the untyped nil (a valid map key)
 		key := func(i int) any {
@@ -194,6 +205,11 @@ func run(t *testing.T, plan any, keep bool) *simcheck.Outcome {
 			}
 			for _, c := range p.Children[i] {
 				w.Add(key(c))
+			}
+			if p.SlowItem == i+1 {
+				time.Sleep(time.Duration(p.SlowMs) * time.Millisecond)
+				simrt.Yield("f.woke")
+				slept++
 			}
 			if c, ok := waits[i]; ok && !started[c] {
 				rendezvous++
@@ -245,6 +261,7 @@ func run(t *testing.T, plan any, keep bool) *simcheck.Outcome {
 		out.Count("probe_all_workers_busy", 1)
 	}
 	out.Count("probe_rendezvous_waits", int64(rendezvous))
+	out.Count("probe_slow_call_of_f", int64(slept))
 	if len(p.Initial) == 0 {
 		out.Count("probe_empty_initial_set", 1)
 	}
@@ -255,7 +272,7 @@ func run(t *testing.T, plan any, keep bool) *simcheck.Outcome {
 var harness = &simcheck.Harness{
 	Property: "C09",
 	Level:    "exploration",
-	Rule: "rapid draws a worker count (1-4), an item graph (children lists with duplicates, self loops and cycles; a quarter of the plans are wide: 1-2 workers, 12-40 items, long initial backlog, fan-out up to 24; a tenth are bursts: 66-140 items queued at one time, before Do or by the first call of f, then drained; one item may be the untyped nil), the initial adds, " +
+	Rule: "rapid draws a worker count (1-4), an item graph (children lists with duplicates, self loops and cycles; a quarter of the plans are wide: 1-2 workers, 12-40 items, long initial backlog, fan-out up to 24; a tenth are bursts: 66-140 items queued at one time, before Do or by the first call of f, then drained; one item may be the untyped nil; one call of f may take 1 ms to 61 s of simulated time), the initial adds, " +
 		"yield counts inside f, rendezvous points (a call of f waits until a child it added has started; at most n-1 items may wait), and a schedule (pct with change points / uniform random / sticky); a case is non-trivial when at least two " +
 		"different runner tasks executed f, and distinct by the hash of its full decision trace (task, seam) sequence",
 	Gen:     genPlan,
